@@ -2,7 +2,7 @@ SPEC = dict(
     id="C16",
     bin="c16",
     coq_dir="C16",
-    coq_targets=["C16/Proofs.vo", "C16/Examples.vo"],
+    coq_targets=["C16/Proofs.vo", "C16/Proofs2.vo", "C16/Examples.vo"],
     allowed_axioms=[],
     level_text="(filled at the end)",
     level_note="(filled at the end)",
